@@ -50,6 +50,9 @@ rc, out = sh("git diff --quiet", "/repo")
 assert rc == 0, "/repo dirty"
 rc, out = sh("git apply %s" % patch, "/repo")
 assert rc == 0, "patch does not apply to /repo: " + out
+# evidence files must stay those of clean-tree runs
+shutil.rmtree("/verif/.work/evidence_keep", ignore_errors=True)
+shutil.copytree("/verif/evidence", "/verif/.work/evidence_keep")
 try:
     for c in checks.split(","):
         rc, out = sh("./check %s 2>&1 | grep -E 'VIOLATION|tier=' | head -3" % c, "/verif")
@@ -57,6 +60,9 @@ try:
         print(c, "CAUGHT" if caught[c] else "missed", out.strip().splitlines()[-1] if out.strip() else "")
 finally:
     sh("git checkout -- .", "/repo")
+    shutil.rmtree("/verif/evidence", ignore_errors=True)
+    shutil.copytree("/verif/.work/evidence_keep", "/verif/evidence")
+    shutil.rmtree("/verif/.work/evidence_keep", ignore_errors=True)
 shutil.copy(patch, os.path.join(dst, "patch.diff"))
 shutil.copy(os.path.join(wt, demo), os.path.join(dst, demo))
 if os.path.exists(os.path.join(wt, "seeded_notes.md")):
